@@ -111,7 +111,7 @@ class Gen(object):
             self.emit(rng.choice(['M204 S%d' % rng.randint(500, 3000), 'M204 P%d T%d' % (rng.randint(500, 2000), rng.randint(500, 2000)),
                                   'M205 X%d Y%d' % (rng.randint(5, 20), rng.randint(5, 20)), 'M205 X%d' % rng.randint(1, 9),
                                   'M117 Layer %d' % rng.randint(1, 99), 'M73 P%d' % rng.randint(0, 100), 'M73 P%d R%d' % (rng.randint(0, 100), rng.randint(0, 300)),
-                                  'G4 P%d' % rng.randint(1, 500), 'G4', 'M204 S0', 'M205 X0 Y0', 'M73 P0 R0', 'M73 P0', 'M106 S0', 'M205 X0', 'G4 P0'] + list(self.extra_ext_cmds)))
+                                  'G4 P%d' % rng.randint(1, 500), 'G4', 'M204 S0', 'M205 X0 Y0', 'M73 P0 R0', 'M73 P0', 'M106 S0', 'M205 X0', 'G4 P0', 'M204 S', 'M73 P5 R', 'M117 Hello World 5'] + list(self.extra_ext_cmds)))
         elif r < 0.16:
             self.emit(rng.choice(['M106 S%d' % rng.randint(0, 255), 'M107', 'M140 S60', 'T0', 'M82', 'M400', 'G4 S0', 'M105', 'G29.1']))
         elif r < 0.19 and o['at']:
@@ -221,7 +221,7 @@ class Gen(object):
         if self.o['ext'] and rng.random() < 0.6:
             for code in rng.sample(['M204', 'M205', 'M117', 'M73', 'G4', 'M106', 'M900', 'M220'], rng.randint(1, 5)):
                 ext[code] = rng.choice(EXT_MODES)
-            self.extra_ext_cmds = ['M900 K0.%d' % rng.randint(1, 9), 'M220 S%d' % rng.randint(50, 150), 'M900 K0.2 L5']
+            self.extra_ext_cmds = ['M900 K0.%d' % rng.randint(1, 9), 'M220 S%d' % rng.randint(50, 150), 'M900 K0.2 L5', 'M220 B']
         enter = exit_ = None
         if self.o['scripts'] and rng.random() < 0.5:
             enter = rng.choice([None, ['M117 Excluding'], ['M106 S0', 'M117 skip']])
